@@ -1880,6 +1880,9 @@ impl Tags {
         if n.starts_with('$') {
           self.add("socket.ref");
         }
+        if PRELUDE_ALL.contains(&n.as_str()) && n != "any" {
+          self.add(&format!("pre.{}", n));
+        }
         self.add("name");
         self.args(a);
       }
